@@ -396,7 +396,9 @@ def r20b(rep, prog):
                 vprobs = []
                 cfg_k = kfn.cfg
                 if not from_opt:
-                    opaque_rhs = [rhs for (d, rhs) in defs if rhs is not None and rhs.strip_all().cv is None and
+                    opaque_rhs = [rhs for (d, rhs) in defs if rhs is not None and rhs.strip_all().k in ex.CALL_KINDS and rhs.strip_all().callee and
+                                  rhs.strip_all().callee.get('in_repo')] or \
+                                 [rhs for (d, rhs) in defs if rhs is not None and rhs.strip_all().cv is None and
                                   not any(x.k in ex.CALL_KINDS and x.callee and x.callee['name'] in ('hardware_concurrency', 'max_allowed_parallelism', 'default_concurrency')
                                           for x in [rhs.strip_all()] + list(rhs.walk()))]
                     if opaque_rhs:
@@ -605,8 +607,17 @@ def knob_zero(rep, prog, main, rule):
                     fixes.append(d)
                 elif nz is None:
                     unknown.append(d)
+        # the value may be produced by a helper of the repo that does the translation (`cores = effective_concurrency(requested, hw)`)
+        via_helper = None
+        if xv is not None and not fixes:
+            for (d, rhs) in ex.assignments_to(main, xv):
+                r_ = rhs.strip_all() if rhs is not None else None
+                if r_ is not None and r_.k in ex.CALL_KINDS and r_.callee and r_.callee.get('in_repo') and r_.callee['g'] != common.KNOB:
+                    via_helper = r_
         if fixes:
             rep.ok(rule, kcall, main, what, 'replaced at line %d under `== 0` by a positive thread count' % fixes[0].line)
+        elif via_helper is not None:
+            rep.undecided(rule, kcall, main, what, 'the value comes from the helper `%s`, whose translation of 0 is not evaluated' % via_helper.callee['name'])
         elif unknown:
             rep.undecided(rule, kcall, main, what, 'replacement `%s` (line %d) is not a recognised positive value' % (unknown[0].text(40), unknown[0].line))
         else:
